@@ -78,7 +78,20 @@ func genEntries(r *rand.Rand, keyLens, valLens []int, n int) ([]types.Entry, int
 		kl := keyLens[r.Intn(len(keyLens))]
 		vl := valLens[r.Intn(len(valLens))]
 		var key string
-		switch r.Intn(3) {
+		switch r.Intn(5) {
+		case 3, 4: // the previous key with one byte changed (and, sometimes, a different tail): equal again after the difference
+			if len(prev) >= 2 {
+				b := []byte(prev)
+				p := r.Intn(len(b))
+				b[p] = byte('a' + (int(b[p])+1+r.Intn(20))%26)
+				if r.Intn(3) == 0 {
+					q := p + 1 + r.Intn(len(b)-p)
+					b = append(b[:q:q], randBytes(r, r.Intn(12), false)...)
+				}
+				key = string(b)
+				break
+			}
+			fallthrough
 		case 0: // no shared prefix
 			key = string(randBytes(r, kl, r.Intn(2) == 0))
 		case 1: // long shared prefix with the previous key
@@ -130,6 +143,20 @@ func cmdCodec(args []string) int {
 			kl, vl, cls = []int{65535}, []int{65535}, "key=value=65535"
 		}
 		es, maxl := genEntries(r, kl, vl, 1+r.Intn(4))
+		if i%5 == 2 {
+			// a damaged block (torn table file) fails to decode; the codecs must keep working afterwards
+			_ = safely(func() string {
+				blk := table.Data{Entries: es}
+				b, _ := blk.Encode()
+				var x table.Data
+				_ = x.Decode(b[:len(b)/2])
+				_ = x.Decode(randBytes(r, 1+r.Intn(40), true))
+				var y table.Index
+				_ = y.Decode(b[:len(b)/3])
+				_ = y.Decode(randBytes(r, 1+r.Intn(40), true))
+				return ""
+			})
+		}
 		// Data block
 		d := safely(func() string {
 			blk := table.Data{Entries: es}
@@ -298,6 +325,46 @@ func cmdCodec(args []string) int {
 			os.RemoveAll(dir)
 			emit(CodecEvent{Ev: "RoundTrip", Codec: "WAL", Equal: d == "", MaxLen: maxl, Case: cls, Detail: d})
 		}
+	}
+	// one log read by several goroutines at once: every Read returns exactly what was written
+	{
+		dir := scratch("walpar")
+		w, err := wal.Create(dir)
+		var want []types.Entry
+		if err == nil {
+			for b := 0; b < 60; b++ {
+				batch, _ := genEntries(r, []int{3, 40, 300}, []int{1, 200, 3000, 20000}, 1+r.Intn(4))
+				if err = w.Write(batch...); err != nil {
+					break
+				}
+				want = append(want, batch...)
+			}
+		}
+		var pw sync.WaitGroup
+		var pmu sync.Mutex
+		for g := 0; g < 6 && err == nil; g++ {
+			pw.Add(1)
+			go func() {
+				defer pw.Done()
+				for j := 0; j < 4; j++ {
+					d := safely(func() string {
+						got, err := w.Read()
+						if err != nil {
+							return "read: " + err.Error()
+						}
+						return eqEntries(want, got)
+					})
+					pmu.Lock()
+					emit(CodecEvent{Ev: "RoundTrip", Codec: "WAL(concurrent reads)", Equal: d == "", MaxLen: 2, Detail: d})
+					pmu.Unlock()
+				}
+			}()
+		}
+		pw.Wait()
+		if w != nil {
+			_ = w.Delete()
+		}
+		os.RemoveAll(dir)
 	}
 	// result stability: keep what the encoders returned, let other goroutines encode and log, compare
 	var wg sync.WaitGroup
